@@ -20,11 +20,11 @@ def install_uuid(mode, seed):
         state["n"] += 1
         n = state["n"]
         if mode == "ascending":
-            v = n
+            v = (1 << 96) + n  # large like real uuids: einx derives axis names such as "a<int>" from them
         elif mode == "descending":
             v = (1 << 100) - n
         elif mode == "shuffled":
-            v = pool[n % len(pool)] + (n // len(pool)) * len(pool) + 1
+            v = (1 << 90) + pool[n % len(pool)] + (n // len(pool)) * len(pool) + 1
         else:
             raise ValueError(mode)
         return uuid.UUID(int=v)
@@ -97,7 +97,7 @@ def main():
                     arrays[int(j)] = np.zeros(newshape, dtype=arrays[int(j)].dtype)
                 outs.append(digest(c01.call_einx(case, with_factories(case, arrays))))
             except Exception as e:  # noqa: BLE001
-                outs.append(["exc", type(e).__name__])
+                outs.append(["exc", type(e).__name__, str(e)[-160:]])
         results[str(idx)] = outs
         # two graph=True requests: warm cache, then after clearing the operation's cache (every child checks
         # a third of the entries, so that all entries are covered by some child at a third of the cost)
